@@ -38,6 +38,9 @@ pub struct Params {
     /// the peer keeps sending frames of its own (stream data, keep-alive requests, padding) every I/4 whether or not it
     /// answers the client's keep-alive requests: only answers count as answers
     pub chatter: bool,
+    /// the uplink is narrow (16 bytes in flight) and every packet carries 200 bytes of padding behind its payload:
+    /// the keep-alive request reaches the peer (and is answered) while the monitor's write is still in progress
+    pub padded_narrow_uplink: bool,
     /// the largest value the command line accepts (u64::MAX seconds) instead of interval_ms / timeout_ms
     pub huge_interval: bool,
     pub huge_timeout: bool,
@@ -61,13 +64,22 @@ pub fn make(p: Params) -> ScenarioFn {
             let t0 = tokio::time::Instant::now();
             let d = Duration::from_millis(p.delay_ms);
             let blackhole = matches!(p.silence, Silence::BlackholeAfter(_));
-            let c2s_cfg = if blackhole { PipeCfg::new("c2s").latency(d).capacity(300) } else { PipeCfg::new("c2s").latency(d) };
+            let c2s_cfg = if blackhole { PipeCfg::new("c2s").latency(d).capacity(300) } else if p.padded_narrow_uplink { PipeCfg::new("c2s").latency(d).capacity(16) } else { PipeCfg::new("c2s").latency(d) };
             let mut link = peer_link(PipeCfg::new("s2c").latency(d), c2s_cfg);
             let hb = SessionHeartbeatConfig {
                 interval: if p.huge_interval { Duration::from_secs(u64::MAX) } else { Duration::from_millis(p.interval_ms) },
                 timeout: if p.huge_timeout { Duration::from_secs(u64::MAX) } else { Duration::from_millis(p.timeout_ms) },
             };
-            let sess = match start_client_session(link.sess_r, link.sess_w, padding(STOP0), Some(hb), 0).await {
+            let scheme_text = if p.padded_narrow_uplink {
+                let mut t = String::from("stop=100000");
+                for k in 0..=600 {
+                    t.push_str(&format!("\n{k}=7-7,200-200"));
+                }
+                t
+            } else {
+                STOP0.to_string()
+            };
+            let sess = match start_client_session(link.sess_r, link.sess_w, padding(&scheme_text), Some(hb), 0).await {
                 Ok(s) => s,
                 Err(e) => {
                     out.viol("C14:start-failed", format!("{e}"));
@@ -83,7 +95,16 @@ pub fn make(p: Params) -> ScenarioFn {
                 }
             };
             sess.disable_buffering();
-            let _ = sess.write_data_frame(st.id(), Bytes::from_static(&[1, 127, 0, 0, 1, 0, 80])).await;
+            if p.padded_narrow_uplink {
+                // nobody reads yet (the scripted peer starts below): the first flush completes once it does
+                let s0 = sess.clone();
+                let id0 = st.id();
+                tokio::spawn(async move {
+                    let _ = s0.write_data_frame(id0, Bytes::from_static(&[1, 127, 0, 0, 1, 0, 80])).await;
+                });
+            } else {
+                let _ = sess.write_data_frame(st.id(), Bytes::from_static(&[1, 127, 0, 0, 1, 0, 80])).await;
+            }
             // scripted peer
             let last_answer_ms: Arc<Mutex<Option<u64>>> = Arc::new(Mutex::new(None));
             let la = last_answer_ms.clone();
@@ -266,7 +287,7 @@ pub fn make(p: Params) -> ScenarioFn {
 }
 
 pub fn params_json(p: &Params) -> serde_json::Value {
-    json!({"interval_ms": p.interval_ms, "timeout_ms": p.timeout_ms, "one_way_delay_ms": p.delay_ms, "silence": format!("{:?}", p.silence), "traffic": p.traffic, "peer_chatter": p.chatter, "huge_interval": p.huge_interval, "huge_timeout": p.huge_timeout})
+    json!({"interval_ms": p.interval_ms, "timeout_ms": p.timeout_ms, "one_way_delay_ms": p.delay_ms, "silence": format!("{:?}", p.silence), "traffic": p.traffic, "peer_chatter": p.chatter, "padded_narrow_uplink": p.padded_narrow_uplink, "huge_interval": p.huge_interval, "huge_timeout": p.huge_timeout})
 }
 
 pub fn all_params(tier: Tier) -> Vec<(Params, usize)> {
@@ -291,14 +312,24 @@ pub fn all_params(tier: Tier) -> Vec<(Params, usize)> {
                 }
             }
             for d in delays {
-                v.push((Params { interval_ms: i * 1000, timeout_ms: t * 1000, delay_ms: d, silence: Silence::BlackholeAfter(k), traffic: true, chatter: false, huge_interval: false, huge_timeout: false }, if thorough && d == 1 { 1 } else { 0 }));
+                v.push((Params { interval_ms: i * 1000, timeout_ms: t * 1000, delay_ms: d, silence: Silence::BlackholeAfter(k), traffic: true, chatter: false, padded_narrow_uplink: false, huge_interval: false, huge_timeout: false }, if thorough && d == 1 { 1 } else { 0 }));
             }
         }
     }
     // the largest values the command line accepts
     for (hi, ht) in [(false, true), (true, false), (true, true)] {
         for s in [Silence::Never, Silence::FromStart, Silence::AfterResponse(1)] {
-            v.push((Params { interval_ms: 1000, timeout_ms: 1000, delay_ms: 1, silence: s, traffic: false, chatter: false, huge_interval: hi, huge_timeout: ht }, 0));
+            v.push((Params { interval_ms: 1000, timeout_ms: 1000, delay_ms: 1, silence: s, traffic: false, chatter: false, padded_narrow_uplink: false, huge_interval: hi, huge_timeout: ht }, 0));
+        }
+    }
+    // a narrow, padded uplink: the request is answered while the monitor is still inside its write
+    for (i, t) in [(3u64, 1u64), (2, 1), (5, 2), (1, 3), (2, 2)] {
+        // (one-way delays of 0 and 1 ms only: a narrow pipe with latency is a slow link, and 16 bytes per 100 ms would
+        // make the transmission time of one padded packet exceed the timeouts — outside "delay below the timeout")
+        for d in [0u64, 1] {
+            for s in [Silence::Never, Silence::AfterResponse(2), Silence::FromStart] {
+                v.push((Params { interval_ms: i * 1000, timeout_ms: t * 1000, delay_ms: d, silence: s, traffic: false, chatter: false, padded_narrow_uplink: true, huge_interval: false, huge_timeout: false }, if thorough { 2 } else { 1 }));
+            }
         }
     }
     for i in &intervals {
@@ -326,10 +357,10 @@ pub fn all_params(tier: Tier) -> Vec<(Params, usize)> {
                         }
                         // schedule deviations on a subset: small configurations
                         let bound = if *i <= 2 && *t <= 3 && d <= 1 && (thorough || !traffic) { 1 } else { 0 };
-                        v.push((Params { interval_ms: i_ms, timeout_ms: t_ms, delay_ms: d, silence: *s, traffic, chatter: false, huge_interval: false, huge_timeout: false }, bound));
+                        v.push((Params { interval_ms: i_ms, timeout_ms: t_ms, delay_ms: d, silence: *s, traffic, chatter: false, padded_narrow_uplink: false, huge_interval: false, huge_timeout: false }, bound));
                         // a peer that keeps talking (data, its own keep-alive requests, padding) without answering
                         if !traffic && (thorough || matches!(s, Silence::Never | Silence::FromStart | Silence::AfterResponse(1) | Silence::BeforeResponse(2))) {
-                            v.push((Params { interval_ms: i_ms, timeout_ms: t_ms, delay_ms: d, silence: *s, traffic, chatter: true, huge_interval: false, huge_timeout: false }, 0));
+                            v.push((Params { interval_ms: i_ms, timeout_ms: t_ms, delay_ms: d, silence: *s, traffic, chatter: true, padded_narrow_uplink: false, huge_interval: false, huge_timeout: false }, 0));
                         }
                     }
                 }
